@@ -265,7 +265,7 @@ pub(crate) mod __verif {
         e3b_body(LoopStep::EnterThenExit);
     }
 
-    // @obligation name=e3b_bt_run_loop_undo_lazy props=C01:t,C02:t,C05:t fn=classicalbacktrack::MatchAttempter::run_loop,classicalbacktrack::MatchAttempter::try_backtrack kind=complete domain="every iters, min<=iters<max, lazy, entry/pos in a 2-byte haystack" min_checks=300 w=5 timeout=3000
+    // @obligation name=e3b_bt_run_loop_undo_lazy props= fn=classicalbacktrack::MatchAttempter::run_loop,classicalbacktrack::MatchAttempter::try_backtrack kind=complete domain="every iters, min<=iters<max, lazy, entry/pos in a 2-byte haystack" min_checks=300 w=5 timeout=3000
     // Lazy loop with both arms viable: backtracking enters the loop (iters+1, entry=pos) from the same position; giving
     // that up as well restores the loop data (entry included, #131).
     #[kani::proof]
@@ -1858,7 +1858,7 @@ pub(crate) mod __verif {
         }
     }
 
-    // @obligation name=e6_bt_lookaround props=C01:t,C02:t fn=classicalbacktrack::MatchAttempter::run_lookaround kind=bounded bound="4 groups, body owns groups 1..3; inner attempt replaced by an oracle meeting try_at_pos's contract; symbolic prior groups and prior stack depth 1..2" min_checks=500 w=4 timeout=2400
+    // @obligation name=e6_bt_lookaround props= fn=classicalbacktrack::MatchAttempter::run_lookaround kind=bounded bound="4 groups, body owns groups 1..3; inner attempt replaced by an oracle meeting try_at_pos's contract; symbolic prior groups and prior stack depth 1..2" min_checks=500 w=4 timeout=2400
     // run_lookaround returns matched != negate and never moves the caller's position; if it returns with the body's
     // captures kept (positive, matched) then backtracking past it restores the previous values of exactly those
     // groups; otherwise (negative or failed) the groups and the caller's stack are exactly as before.
@@ -2088,7 +2088,7 @@ pub(crate) mod __verif {
         f1_body(false);
     }
 
-    // @obligation name=f2_bt_driver_anchored props=C04,C09:t fn=classicalbacktrack::BacktrackExecutor::next_match_anchored,classicalbacktrack::BacktrackExecutor::next_match kind=bounded bound="haystack of 3 chars (3-4 bytes), every start boundary; interpreter = oracle; start_pred = StartAnchored" min_checks=300 w=2 timeout=900
+    // @obligation name=f2_bt_driver_anchored props=C04,C09,C06 fn=classicalbacktrack::BacktrackExecutor::next_match_anchored,classicalbacktrack::BacktrackExecutor::next_match kind=bounded bound="haystack of 3 chars (3-4 bytes), every start boundary; interpreter = oracle; start_pred = StartAnchored" min_checks=300 w=2 timeout=900
     // With a StartAnchored predicate next_match makes exactly one attempt, at the given position, and reports it.
     #[kani::proof]
     #[kani::unwind(7)]
